@@ -321,6 +321,60 @@ func TestC15(t *testing.T) {
 		ev.Exhaustive("gate", true)
 	})
 
+	t.Run("gate-instance-reused", func(t *testing.T) {
+		if shard() != 0 {
+			return
+		}
+		// the gate of an instance that has already validated a list of another length answers like
+		// a fresh one (enumerated: every operator x every ordered pair of accepted input counts)
+		names := opset13.GetOpNames()
+		sort.Strings(names)
+		for _, name := range names {
+			probe, _ := opset13.GetOperator(name)
+			lo, hi := probe.GetMinInputs(), probe.GetMaxInputs()
+			if name == "Concat" {
+				hi = 6
+			}
+			cons := probe.GetInputTypeConstraints()
+			mk := func(n int) []tensor.Tensor {
+				ins := make([]tensor.Tensor, n)
+				for i := range ins {
+					dt := tensor.Float32
+					if name != "Concat" && i < len(cons) && len(cons[i]) > 0 && !containsDtype(cons[i], tensor.Float32) {
+						dt = cons[i][0]
+					}
+					ins[i] = oneElem(dt)
+				}
+				return ins
+			}
+			for n1 := lo; n1 <= hi; n1++ {
+				for n2 := lo; n2 <= hi; n2++ {
+					if n1 == n2 {
+						continue
+					}
+					fresh, _ := opset13.GetOperator(name)
+					want, wantErr := fresh.ValidateInputs(mk(n2))
+					used, _ := opset13.GetOperator(name)
+					_, _ = used.ValidateInputs(mk(n1))
+					got, gotErr := used.ValidateInputs(mk(n2))
+					ev.Case("gate-reuse", fmt.Sprintf("%s %d then %d inputs", name, n1, n2), true, "reused")
+					bad := (wantErr == nil) != (gotErr == nil) || (wantErr == nil && len(want) != len(got))
+					if !bad && wantErr == nil {
+						for i := range want {
+							if (want[i] == nil) != (got[i] == nil) {
+								bad = true
+							}
+						}
+					}
+					if bad {
+						t.Fatalf("C15 violated: the gate of a %s instance that validated %d inputs before answers a list of %d inputs with (%d entries, %v), a fresh instance with (%d entries, %v)", name, n1, n2, len(got), gotErr, len(want), wantErr)
+					}
+				}
+			}
+		}
+		ev.Exhaustive("gate-reuse", true)
+	})
+
 	check(t, "registry", 6000, 60000, func(rt *rapid.T) {
 		if rapid.IntRange(0, 9).Draw(rt, "unknownName") == 0 {
 			names := opset13.GetOpNames()
